@@ -2,8 +2,8 @@
 """Runs every quick check against every seeded change, in a scratch worktree of /repo (never /repo
 itself), and writes seeded/MATRIX.json + seeded/MATRIX.md.  usage: seed_matrix.py [seed-id ...]"""
 import json, os, subprocess, sys, time, shutil
-VERIF = "/verif"
-WT = "/tmp/seedwt"
+VERIF = os.environ.get("VERIF_DIR", "/verif")   # a copy of /verif may be used so that /verif itself stays usable meanwhile
+WT = os.environ.get("VERIF_WT", "/tmp/seedwt")
 CHECKS = ["C%02d" % i for i in range(1, 20)]
 seeds = sys.argv[1:] or sorted(d for d in os.listdir(VERIF + "/seeded") if os.path.isfile(VERIF + "/seeded/%s/patch.diff" % d))
 subprocess.run(["git", "-C", "/repo", "worktree", "remove", "--force", WT], stderr=subprocess.DEVNULL)
